@@ -78,24 +78,107 @@ def _worker_run(spec):
     return res
 
 
-def run_jobs(check_module, jobs, nproc=None, progress=False):
-    """jobs: list of spec dicts, each with key 'backend'.  returns list of result dicts (same order not guaranteed)"""
+def _worker_loop(backend, check_module, conn):
+    try:
+        _worker_init(backend, check_module, True)
+    except BaseException as ex:
+        conn.send(("init-error", "%s: %s" % (type(ex).__name__, ex)))
+        return
+    conn.send(("ready", None))
+    while True:
+        try:
+            spec = conn.recv()
+        except EOFError:
+            return
+        if spec is None:
+            return
+        conn.send(("done", _worker_run(spec)))
+
+
+class _Worker:
+    def __init__(self, ctx, backend, check_module):
+        self.parent, child = ctx.Pipe()
+        self.proc = ctx.Process(target=_worker_loop, args=(backend, check_module, child), daemon=True)
+        self.proc.start()
+        child.close()
+        self.job = None
+        self.t0 = None
+        self.ready = False
+        self.jobs_done = 0
+
+    def kill(self):
+        try:
+            self.proc.kill()
+            self.proc.join(5)
+        except Exception:
+            pass
+
+
+def run_jobs(check_module, jobs, nproc=None, progress=False, job_timeout=None):
+    """jobs: list of spec dicts, each with key 'backend'.  Own process pool so that a job exceeding its wall limit
+    (a solver call that ignores its timeout) is killed and reported as a harness error instead of hanging the check."""
+    from multiprocessing.connection import wait as mpwait
     nproc = nproc or int(os.environ.get("VERIF_NPROC", "16"))
+    job_timeout = job_timeout or int(os.environ.get("VERIF_JOB_TIMEOUT", "300" if tier() == "quick" else "1500"))
     by_backend = {}
     for j in jobs:
         by_backend.setdefault(j.get("backend", "snarkjs"), []).append(j)
     results = []
     ctx = mp.get_context("spawn")
+    show = progress or os.environ.get("VERIF_PROGRESS")
     for backend, js in by_backend.items():
-        # longest first (rough): harnesses flagged heavy go first
-        js = sorted(js, key=lambda s: -s.get("weight", 1))
-        with ctx.Pool(processes=min(nproc, len(js)), initializer=_worker_init,
-                      initargs=(backend, check_module, True), maxtasksperchild=40) as pool:
-            for r in pool.imap_unordered(_worker_run, js, chunksize=1):
-                results.append(r)
-                if progress or os.environ.get("VERIF_PROGRESS"):
-                    print("  job %s: %s (%.1fs)" % (r["spec"].get("name"), r.get("error") or "ok", r["wall"]),
-                          file=sys.stderr, flush=True)
+        queue = sorted(js, key=lambda s: -s.get("weight", 1))
+        workers = [_Worker(ctx, backend, check_module) for _ in range(min(nproc, len(queue)))]
+        pending = len(queue)
+        while pending:
+            now = time.time()
+            for w in list(workers):
+                if w.job is not None and now - w.t0 > w.job.get("job_timeout", job_timeout):
+                    results.append(dict(spec=w.job, wall=round(now - w.t0, 1), error=None, timed_out=True,
+                                        inconclusive=["%s: job exceeded its wall limit of %ds and was stopped" % (
+                                            w.job.get("name"), w.job.get("job_timeout", job_timeout))]))
+                    if show:
+                        print("  job %s: TIMEOUT" % w.job.get("name"), file=sys.stderr, flush=True)
+                    pending -= 1
+                    w.kill()
+                    workers.remove(w)
+                    if queue:
+                        workers.append(_Worker(ctx, backend, check_module))
+            conns = [w.parent for w in workers]
+            if not conns:
+                break
+            for c in mpwait(conns, timeout=1.0):
+                w = next(x for x in workers if x.parent is c)
+                try:
+                    kind, payload = c.recv()
+                except (EOFError, OSError):
+                    if w.job is not None:
+                        results.append(dict(spec=w.job, wall=0, error="worker died"))
+                        pending -= 1
+                    workers.remove(w)
+                    if queue:
+                        workers.append(_Worker(ctx, backend, check_module))
+                    continue
+                if kind == "init-error":
+                    raise RuntimeError("worker initialisation failed: %s" % payload)
+                if kind == "done":
+                    results.append(payload)
+                    pending -= 1
+                    w.jobs_done += 1
+                    if show:
+                        print("  job %s: %s (%.1fs)" % (payload["spec"].get("name"), payload.get("error") or "ok",
+                                                       payload["wall"]), file=sys.stderr, flush=True)
+                    w.job = None
+                if queue:
+                    w.job = queue.pop(0)
+                    w.t0 = time.time()
+                    c.send(w.job)
+                else:
+                    w.job = None
+                    c.send(None)
+                    workers.remove(w)
+        for w in workers:
+            w.kill()
     return results
 
 
